@@ -5,7 +5,7 @@
 From V Require Import Base.
 From V.spec Require Import SpecTape SpecDisk.
 From V.model Require Import MCassette MDisk MVirtualFile.
-From V.proofs Require Import PCassetteW PCassetteR PDiskAlloc PDiskWrite PDiskProps.
+From V.proofs Require Import PCassetteW PCassetteR PDiskAlloc PDiskWrite PDiskProps PDiskSniff.
 Local Open Scope N_scope.
 
 Local Strategy opaque [slice files_disk list_files_disk render image_of].
@@ -207,6 +207,16 @@ Theorem sniff_cassette cs :
 Proof.
   intros Hv Hne Hs. unfold sniff, MDisk.list_files. unfold tape_size_ok in Hs.
   apply N.ltb_lt in Hs. rewrite Hs. rewrite (roundtrip cs Hv Hne).
+  destruct (fat_plausible _); destruct cs as [|c r]; reflexivity.
+Qed.
+
+(* a tape of ANY length is recognised as long as the bytes where a disk keeps its allocation table are not
+   such a table (repair F48) *)
+Theorem sniff_cassette_any_length cs :
+  Forall valid_cfile cs -> Forall (fun c => c_data c <> []) cs -> fat_plausible (MCassette.write cs) = false ->
+  sniff (MCassette.write cs) = Ok (map of_cfile (map MCassette.norm cs), KCas).
+Proof.
+  intros Hv Hne Hs. unfold sniff. rewrite Hs. rewrite (roundtrip cs Hv Hne).
   destruct cs as [|c r]; reflexivity.
 Qed.
 
@@ -214,7 +224,8 @@ Theorem sniff_disk order ds st :
   in_range order -> Forall valid_dfile ds -> MDisk.add_files order [] ds = Ok st ->
   sniff (image_of st) = Ok (map of_dfile (map MDisk.norm ds), KDsk).
 Proof.
-  intros Ho Hv H. unfold sniff. destruct (disk_roundtrip order ds st Ho Hv H) as [E _]. rewrite E. reflexivity.
+  intros Ho Hv H. unfold sniff. destruct (disk_roundtrip order ds st Ho Hv H) as [E _]. rewrite E.
+  rewrite fat_plausible_image; [reflexivity|]. eapply add_files_wf; eauto. apply wf_nil.
 Qed.
 
 Lemma default_in_range : in_range default_order.
@@ -317,7 +328,7 @@ Qed.
 Lemma sniff_cas_inv o fl : sniff o = Ok (fl, KCas) ->
   o = [] \/ exists cs, MCassette.list_files o = Ok cs /\ cs <> [] /\ fl = map of_cfile cs.
 Proof.
-  unfold sniff. destruct (MDisk.list_files o) as [ds|c|c| |]; try discriminate.
+  unfold sniff. destruct (if fat_plausible o then MDisk.list_files o else Diag 4) as [ds|c|c| |]; try discriminate.
   destruct (MCassette.list_files o) as [cs|c'|c'| |] eqn:E; try discriminate.
   destruct cs as [|c0 r].
   - destruct o as [|b o']; [now left|discriminate].
@@ -328,8 +339,8 @@ Qed.
 Lemma sniff_dsk_inv (o : list byte) fl : sniff o = Ok (fl, KDsk) ->
   N.of_nat (length o) = IMAGE_SIZE /\ exists ds, MDisk.list_files o = Ok ds /\ fl = map of_dfile ds.
 Proof.
-  unfold sniff. destruct (MDisk.list_files o) as [ds|c|c| |] eqn:E.
-  - intros H. inversion H. split; [|now exists ds].
+  unfold sniff. destruct (if fat_plausible o then MDisk.list_files o else Diag 4) as [ds|c|c| |] eqn:E.
+  - intros H. inversion H. destruct (fat_plausible o); [|discriminate]. split; [|now exists ds].
     unfold MDisk.list_files in E.
     destruct (N.of_nat (length o) <? IMAGE_SIZE) eqn:E1; [discriminate|].
     destruct (IMAGE_SIZE <? N.of_nat (length o)) eqn:E2; [discriminate|].
@@ -372,7 +383,15 @@ Lemma sniff_no_header (o : list byte) :
   o <> [] -> N.of_nat (length o) < IMAGE_SIZE -> seek [85; 60; 0] o = None -> sniff o = Ok ([], KBin).
 Proof.
   intros Hne Hl Hs. unfold sniff, MDisk.list_files. apply N.ltb_lt in Hl. rewrite Hl.
-  rewrite (list_files_no_header o Hs). destruct o; [contradiction|reflexivity].
+  rewrite (list_files_no_header o Hs). destruct o; [contradiction|]. destruct (fat_plausible _); reflexivity.
+Qed.
+
+(* ... and content of ANY length without such a header and without an allocation table where a disk keeps
+   one (repair F48) *)
+Lemma sniff_no_header_no_table (o : list byte) :
+  o <> [] -> fat_plausible o = false -> seek [85; 60; 0] o = None -> sniff o = Ok ([], KBin).
+Proof.
+  intros Hne Hf Hs. unfold sniff. rewrite Hf. rewrite (list_files_no_header o Hs). destruct o; [contradiction|reflexivity].
 Qed.
 
 (* the repaired defect as a theorem: such content is refused by --to_cas and --to_dsk whatever the
@@ -403,6 +422,15 @@ Theorem sniff_wellformed_stream (o : list byte) cs :
   sniff o = Ok (map of_cfile cs, KCas).
 Proof.
   intros Hw Hne Hd Hl. unfold sniff, MDisk.list_files. apply N.ltb_lt in Hl. rewrite Hl.
+  rewrite (reads_any_wellformed_stream o cs Hw Hd). destruct cs; [contradiction|]. destruct (fat_plausible _); reflexivity.
+Qed.
+
+(* ... of ANY length when the bytes where a disk keeps its allocation table are not such a table (F48) *)
+Theorem sniff_wellformed_stream_any_length (o : list byte) cs :
+  wf_stream o cs -> cs <> [] -> Forall (fun c => c_data c <> []) cs -> fat_plausible o = false ->
+  sniff o = Ok (map of_cfile cs, KCas).
+Proof.
+  intros Hw Hne Hd Hf. unfold sniff. rewrite Hf.
   rewrite (reads_any_wellformed_stream o cs Hw Hd). destruct cs; [contradiction|reflexivity].
 Qed.
 
